@@ -150,7 +150,14 @@ def run(tree, seed=0):
 
 def ensure(ctx):
     """run the validation once per scratch tree; returns a reason string if the engine disagrees with the implementation"""
-    stamp = os.path.join(ctx.tree.path, '.selftest.json')
+    import glob
+    import hashlib
+    h = hashlib.sha256()
+    here = os.path.dirname(os.path.abspath(__file__))
+    for fn in sorted(glob.glob(os.path.join(here, '..', 'mirsym', '*.py'))) + [os.path.abspath(__file__), os.path.join(here, 'C15.py'), os.path.join(here, 'loaderlib.py')]:
+        h.update(open(fn, 'rb').read())
+    # one validation per (source state, engine state): a changed model or interpreter is validated again
+    stamp = os.path.join(ctx.tree.path, '.selftest.%s.%d.json' % (h.hexdigest()[:12], ctx.seed))
     if os.path.exists(stamp):
         d = json.load(open(stamp))
     else:
